@@ -371,7 +371,7 @@ def create_db_from_text(ctx, text, path="file.gff3", it=None, dbfn="db.sqlite", 
     files = dict(getattr(it, "vfs", None) or {})
     files[path] = [text]
     conn = install(it, db, files=files)
-    it.ext_summaries["sqlite3.connect"] = lambda i, pos, kw, node: conn
+    it.ext_summaries["sqlite3.connect"] = lambda i, pos, kw, node: (i.trace.events.append(("connect", pos[0] if pos else None, node)), conn)[1]
     f = require_func(ctx, "create.create_db")
     try:
         traces = it.run(f, dict(data=path, dbfn=dbfn, **kwargs), copy_args=False)
